@@ -682,3 +682,67 @@ def r11f(ctx):
                 else:
                     ctx.bad(cid, mem.cls.module.loc(p.stmt), f"`return {unparse(v)[:90]}` drops this node from the plan and is inherited by {heirs[:4]}, which can carry a partition selection: without a `not self._filtered` guard the parent is evaluated over all partitions of the input instead of the selected ones")
     ctx.floor("self-dropping rules reachable from a partition-filtered class", n, 1)
+
+
+# ---------------------------------------------------------------------------------------------
+# R11h
+# ---------------------------------------------------------------------------------------------
+
+
+def _physical_twins(model):
+    """(L, K): L._lower constructs K by name and K is a strict subclass of L that survives lowering (it is partitionwise
+    or carries its own _layer/_task)"""
+    base = model.cls("Expr", "_expr")
+    core = model.cls("Expr", "_core")
+    bw = model.cls("Blockwise", "_expr")
+    out = []
+    for L in model.expr_classes():
+        lw = L.members.get("_lower")
+        if lw is None or lw.kind == "attr":
+            continue
+        names = {n.func.id for n in ast.walk(lw.node) if isinstance(n, ast.Call) and isinstance(n.func, ast.Name)}
+        for nm in sorted(names):
+            r = model.resolve_name(L.module, nm)
+            if not (r and r[0] == "class"):
+                continue
+            K = r[1]
+            if K is L or not K.is_sub(L):
+                continue
+            for H in [K] + [h for h in model.subclasses(K, strict=True)]:
+                terminal = H.is_sub(bw) or any((H.provider(a) is not None and H.provider(a).cls not in (base, core)) for a in ("_layer", "_task"))
+                own_lower = H.provider("_lower") is not None and H.provider("_lower").cls.is_sub(K)
+                if terminal and not own_lower and (L, H) not in out:
+                    out.append((L, H))
+    return out
+
+
+@rule(
+    "R11h",
+    ["C11", "C14"],
+    """A PHYSICAL TWIN DOES NOT RE-APPLY ITS LOGICAL CLASS'S RULES: a class K that L._lower produces, subclasses L and
+    survives lowering (BlockwiseHead/BlockwiseTail for Head/Tail, StackPartition for Concat, ...) is still met by the
+    simplify pass that runs AFTER lowering. If K inherits a `_simplify_down` / `_simplify_up` of L that builds L BY NAME
+    (`Tail(op, self.n)`), that pass puts abstract L nodes back into the lowered plan; blockwise fusion then freezes
+    their keys inside a fused group while the last lowering renames them - df.shuffle('x').assign(w=1).tail(3) raised
+    TypeError. K must override such a rule (BlockwiseHead does, with a no-op) or the rule must rebuild through
+    type(self).""",
+)
+def r11h(ctx):
+    model = ctx.model
+    n = 0
+    for L, K in _physical_twins(model):
+        for meth in ("_simplify_down", "_simplify_up"):
+            pv = K.provider(meth)
+            if pv is None or pv.kind == "attr":
+                continue
+            n += 1
+            cid = f"{K.qual}.{meth}:twin-of:{L.name}"
+            if pv.cls.is_sub(L) and pv.cls is not L:
+                ctx.ok(cid, K.loc, f"own rule ({pv.cls.qual})")
+                continue
+            byname = [c for c in ast.walk(pv.node) if isinstance(c, ast.Call) and isinstance(c.func, ast.Name) and (lambda r: bool(r) and r[0] == "class" and r[1] is L)(model.resolve_name(pv.cls.module, c.func.id))]
+            if byname:
+                ctx.bad(cid, pv.cls.module.loc(byname[0]), f"{K.qual} (produced by {L.qual}._lower, survives lowering) inherits {pv.cls.qual}.{meth}, which builds the abstract `{unparse(byname[0])}` by name: the simplify pass after lowering re-creates un-lowered {L.name} nodes in the physical plan (a fused group keeps their stale keys -> TypeError / wrong partition)")
+            else:
+                ctx.ok(cid, K.loc, f"inherited {pv.cls.qual}.{meth} does not build {L.name} by name")
+    ctx.floor("physical twins x rewrite methods", n, 20)
